@@ -198,18 +198,37 @@ func requests() []rsx.Req {
 	return out
 }
 
+// specs2: a static route, its parameter twin and a prefixed parameter below the twin, under two
+// methods with every slash option: several trailing-slash candidates are met while backtracking and
+// the first one's option decides whether the method serves the path.
+func specs2() []rsx.RouteSpec {
+	var out []rsx.RouteSpec
+	for _, p := range []string{"/a/b", "/{x}/b", "/{x}/b{y}", "/a/b/"} {
+		for _, m := range []string{"GET", "POST"} {
+			for s := 0; s < 3; s++ {
+				out = append(out, rsx.RouteSpec{Method: m, Pattern: p, Slash: s})
+			}
+		}
+	}
+	return out
+}
+
 func run(c *mc.Ctx, r *mc.Result) {
-	sp := specs()
-	rqs := requests()
-	// second pass in reverse order: every request then follows a different predecessor on the
-	// recycled context
-	seq := append(append([]rsx.Req{}, rqs...), reversed(rqs)...)
 	k := 3
 	if c.Quick() {
 		k = 2
 	}
+	runSpecs(c, r, "space", specs(), k)
+	runSpecs(c, r, "space.candidates", specs2(), 3)
+}
+
+func runSpecs(c *mc.Ctx, r *mc.Result, name string, sp []rsx.RouteSpec, k int) {
+	rqs := requests()
+	// second pass in reverse order: every request then follows a different predecessor on the
+	// recycled context
+	seq := append(append([]rsx.Req{}, rqs...), reversed(rqs)...)
 	profs := []rsx.Profile{{}, {NoMethod: true}, {AutoOptions: true}, {NoMethod: true, AutoOptions: true}}
-	r.Bounds["space"] = fmt.Sprintf("%d (method,pattern,slash) specs, subsets<=%d, x 4 option profiles x %d requests (forward and reverse order on one router)", len(sp), k, len(rqs))
+	r.Bounds[name] = fmt.Sprintf("%d (method,pattern,slash) specs, subsets<=%d, x 4 option profiles x %d requests (forward and reverse order on one router)", len(sp), k, len(rqs))
 	stopped := false
 	rsx.Subsets(len(sp), k, func(i int, idx []int) {
 		if !c.Mine(i) || stopped {
